@@ -138,7 +138,11 @@ func run(args []string) int {
 		os.Exit(2)
 	})
 	p.Run(c)
-	return c.Finish(filepath.Join(c.VerifDir, "evidence", a.prop+".json"), p.Floors)
+	floors := p.Floors
+	if a.tier == "thorough" {
+		floors = append(append([]core.Floor{}, floors...), p.ThoroughFloors...)
+	}
+	return c.Finish(filepath.Join(c.VerifDir, "evidence", a.prop+".json"), floors)
 }
 
 func replay(args []string) int {
